@@ -6,7 +6,9 @@ import (
 	"encoding/json"
 	"fmt"
 	"os"
+	"sort"
 	"strconv"
+	"strings"
 	"time"
 
 	"github.com/sarchlab/akita/v4/sim"
@@ -35,6 +37,7 @@ type e2eProgram struct {
 	CopyN  int       `json:"copy_n"` // bytes copied A -> B with the driver's device-to-device copy kernel
 	Seed   uint64    `json:"seed"`
 	Timing bool      `json:"timing"`
+	Geo    *geometry `json:"geo,omitempty"` // launch geometry: the steps run geomKernel over a 1/2/3-D grid of N = product work-items instead of kern.ElemKernel over a 1-D grid
 }
 
 type e2ePlacement struct {
@@ -42,6 +45,29 @@ type e2ePlacement struct {
 	NumGPUs int    `json:"num_gpus"`
 	Unified []int  `json:"unified,omitempty"`    // create a unified device over these GPUs and run there
 	Spread  []int  `json:"distribute,omitempty"` // Distribute the buffers over these GPUs, launch on GPU 1
+	Split   bool   `json:"host_split,omitempty"` // geometry programs: the host splits every launch into slabs of work-groups, one per GPU of Spread
+}
+
+// geoPlacements: placements of the programs with a launch geometry. Unified
+// devices of 2, 3 and 4 members (and one made of GPUs 2-3 of 4, one with the
+// members in another order) and plain platforms where the host splits the grid.
+func geoPlacements(timing bool, thorough bool) []e2ePlacement {
+	ps := []e2ePlacement{
+		{Name: "1gpu", NumGPUs: 1},
+		{Name: "unified-1-2-3", NumGPUs: 3, Unified: []int{1, 2, 3}},
+		{Name: "unified-1-2-3-4", NumGPUs: 4, Unified: []int{1, 2, 3, 4}},
+		{Name: "plain-3-host-split", NumGPUs: 3, Spread: []int{1, 2, 3}, Split: true},
+	}
+	if !timing || thorough {
+		ps = append(ps,
+			e2ePlacement{Name: "unified-2-3-of-4", NumGPUs: 4, Unified: []int{2, 3}},
+			e2ePlacement{Name: "unified-1-2", NumGPUs: 2, Unified: []int{1, 2}},
+			e2ePlacement{Name: "unified-4-2-1-of-4", NumGPUs: 4, Unified: []int{4, 2, 1}},
+			e2ePlacement{Name: "plain-2-host-split", NumGPUs: 2, Spread: []int{1, 2}, Split: true},
+			e2ePlacement{Name: "plain-4-host-split", NumGPUs: 4, Spread: []int{1, 2, 3, 4}, Split: true},
+		)
+	}
+	return ps
 }
 
 func placements(timing bool, thorough bool) []e2ePlacement {
@@ -98,6 +124,28 @@ func genProgram(r *vlib.PRNG, id string, timing bool) e2eProgram {
 	return p
 }
 
+// genGeoProgram: a program whose kernels are launched with a 1/2/3-D grid.
+func genGeoProgram(r *vlib.PRNG, id string, timing bool) e2eProgram {
+	p := e2eProgram{ID: id, Seed: r.Uint64(), Timing: timing}
+	maxElems, maxWGs := 60000, 1500
+	if timing {
+		maxElems, maxWGs = 30000, 450
+	}
+	g := genGeometry(r, maxElems, maxWGs)
+	p.Geo = &g
+	p.N = g.n()
+	ns := 1 + r.Intn(2)
+	for i := 0; i < ns; i++ {
+		// add and mul show a work-item that ran twice; xor shows one that never ran
+		p.Steps = append(p.Steps, e2eStep{Op: kern.Op(r.Intn(3)), C: 1 + 2*uint32(r.Intn(5000))})
+	}
+	p.CopyN = 4 * p.N
+	if r.Bool() {
+		p.CopyN = 1 + r.Intn(4*p.N)
+	}
+	return p
+}
+
 type e2eResult struct {
 	HashA   string   `json:"hash_a"`
 	HashB   string   `json:"hash_b"`
@@ -147,11 +195,40 @@ func e2eChild() {
 	d.MemCopyH2D(ctx, bufA, host)
 	d.MemCopyH2D(ctx, bufB, fill)
 	q := d.CreateCommandQueue(ctx)
-	for _, st := range prog.Steps {
-		args := kern.ElemArgs{Buf: bufA, C: st.C}
-		d.EnqueueLaunchKernel(q, kern.ElemKernel(st.Op), [3]uint32{uint32(n), 1, 1}, [3]uint16{64, 1, 1}, &args)
+	switch {
+	case prog.Geo == nil:
+		for _, st := range prog.Steps {
+			args := kern.ElemArgs{Buf: bufA, C: st.C}
+			d.EnqueueLaunchKernel(q, kern.ElemKernel(st.Op), [3]uint32{uint32(n), 1, 1}, [3]uint16{64, 1, 1}, &args)
+		}
+		d.DrainCommandQueue(q)
+	case !pl.Split:
+		g := *prog.Geo
+		for _, st := range prog.Steps {
+			args := g.args(bufA, st.C)
+			d.EnqueueLaunchKernel(q, geomKernel(st.Op), u32x3(g.Grid), u16x3(g.WG), &args)
+		}
+		d.DrainCommandQueue(q)
+	default:
+		// the host splits every launch into slabs of work-groups, one per GPU
+		g := *prog.Geo
+		qs := make([]*driver.CommandQueue, len(pl.Spread))
+		for i, gpu := range pl.Spread {
+			d.SelectGPU(ctx, gpu)
+			qs[i] = d.CreateCommandQueue(ctx)
+		}
+		parts := g.hostSplit(len(pl.Spread))
+		for _, st := range prog.Steps {
+			for _, part := range parts {
+				args := g.args(bufA+driver.Ptr(4*part.ElemOffset), st.C)
+				d.EnqueueLaunchKernel(qs[part.Part], geomKernel(st.Op), u32x3(part.Grid), u16x3(g.WG), &args)
+			}
+			for _, part := range parts {
+				d.DrainCommandQueue(qs[part.Part])
+			}
+		}
+		d.SelectGPU(ctx, 1)
 	}
-	d.DrainCommandQueue(q)
 	d.MemCopyD2D(ctx, bufB, bufA, prog.CopyN)
 	outA := make([]uint32, n)
 	outB := make([]uint32, n)
@@ -207,6 +284,10 @@ func hostReference(prog e2eProgram) (a, b []uint32) {
 }
 
 func runE2E(c *vlib.Check) {
+	if err := checkGeomKernel(); err != nil {
+		c.Inconclusive("harness self-check: " + err.Error())
+		return
+	}
 	scratch, cleanup := vlib.Scratch("c18e2e")
 	defer cleanup()
 	type job struct {
@@ -232,11 +313,58 @@ func runE2E(c *vlib.Check) {
 	for i := 0; i < nTim; i++ {
 		progs = append(progs, genProgram(base.ForkN("timing", i), fmt.Sprintf("timing-%d", i), true))
 	}
+	// programs with a launch geometry (seed independent ones first)
+	geo := func(id string, timing bool, seed uint64, g geometry, steps ...e2eStep) e2eProgram {
+		return e2eProgram{ID: id, N: g.n(), Steps: steps, CopyN: 4 * g.n(), Seed: seed, Timing: timing, Geo: &g}
+	}
+	progs = append(progs,
+		// 200 x 2 work-groups: on a unified device of four GPUs the shares are [0,128) [128,256) [256,384) [384,400), the second wraps around the end of row 0
+		geo("canon-geo-200x2-groups-of-8x8", false, 21, geometry{Grid: [3]int{1600, 16, 1}, WG: [3]int{8, 8, 1}}, e2eStep{kern.OpAdd, 5}),
+		geo("canon-geo-200x2-groups-of-4x4-timing", true, 22, geometry{Grid: [3]int{800, 8, 1}, WG: [3]int{4, 4, 1}}, e2eStep{kern.OpAdd, 5}),
+		// 150 x 3 work-groups, partial last groups in x and y: shares of 128 (4 members) / 192 (3 members) against rows of 150
+		geo("canon-geo-150x3-groups-partial", false, 23, geometry{Grid: [3]int{150*16 - 5, 3*4 - 1, 1}, WG: [3]int{16, 4, 1}}, e2eStep{kern.OpMul, 3}, e2eStep{kern.OpAdd, 9}),
+		// 3-D: 100 x 1 x 2 work-groups (2 rows through z), and 70 x 2 x 2
+		geo("canon-geo-3d-100x1x2-groups", false, 24, geometry{Grid: [3]int{400, 4, 7}, WG: [3]int{4, 4, 4}}, e2eStep{kern.OpAdd, 77}),
+		geo("canon-geo-3d-70x2x2-groups", false, 25, geometry{Grid: [3]int{70*8 - 3, 8, 4}, WG: [3]int{8, 4, 2}}, e2eStep{kern.OpXor, 0x5a5a}, e2eStep{kern.OpAdd, 1}),
+		// tall grids: 3 x 40 work-groups, and 2 x 9 x 7 in 3-D (more rows than work-groups per row)
+		geo("canon-geo-3x40-groups", false, 27, geometry{Grid: [3]int{12, 159, 1}, WG: [3]int{4, 4, 1}}, e2eStep{kern.OpAdd, 13}),
+		geo("canon-geo-3d-2x9x7-groups", false, 28, geometry{Grid: [3]int{16, 35, 14}, WG: [3]int{8, 4, 2}}, e2eStep{kern.OpAdd, 15}),
+		// one row of 200 work-groups launched as a 2-D grid
+		geo("canon-geo-200x1-groups", false, 26, geometry{Grid: [3]int{3200, 4, 1}, WG: [3]int{16, 4, 1}}, e2eStep{kern.OpAdd, 11}),
+	)
+	nGeoEmu, nGeoTim := c.N(12, 150), c.N(2, 16)
+	for i := 0; i < nGeoEmu; i++ {
+		progs = append(progs, genGeoProgram(base.ForkN("geo-emu", i), fmt.Sprintf("geo-emu-%d", i), false))
+	}
+	for i := 0; i < nGeoTim; i++ {
+		progs = append(progs, genGeoProgram(base.ForkN("geo-timing", i), fmt.Sprintf("geo-timing-%d", i), true))
+	}
+	geoSerial := 0
 	for _, pg := range progs {
-		for _, pl := range placements(pg.Timing, c.Thorough()) {
+		pls := placements(pg.Timing, c.Thorough())
+		if pg.Geo != nil {
+			pls = geoPlacements(pg.Timing, c.Thorough())
+			if !c.Thorough() && !pg.Timing && !strings.HasPrefix(pg.ID, "canon") && len(pls) > 6 {
+				// quick tier: generated programs run the first five placements and one of the others in turn
+				k := 5 + geoSerial%(len(pls)-5)
+				pls = append(append([]e2ePlacement{}, pls[:5]...), pls[k])
+				geoSerial++
+			}
+		}
+		for _, pl := range pls {
 			jobs = append(jobs, &job{prog: pg, pl: pl})
 		}
 	}
+	// slow jobs (timing, many GPUs) first
+	sort.SliceStable(jobs, func(a, b int) bool {
+		w := func(j *job) int {
+			if j.prog.Timing {
+				return j.pl.NumGPUs
+			}
+			return 0
+		}
+		return w(jobs[a]) > w(jobs[b])
+	})
 	vlib.Parallel(len(jobs), 12, func(i int) {
 		j := jobs[i]
 		pj, _ := json.Marshal(j.prog)
@@ -293,9 +421,32 @@ func runE2E(c *vlib.Check) {
 				for i := range want {
 					if got[i] != want[i] {
 						wit["buffer"], wit["index"], wit["got"], wit["want"] = buf, i, got[i], want[i]
-						c.Violation(fmt.Sprintf("C18|e2e|%s|%s|differs-from-%s|buffer-%s", mode, j.pl.Name, wantName, buf),
-							fmt.Sprintf("program %s (n=%d, copy %d bytes): buffer %s element %d = 0x%08x on %s/%s, %s gives 0x%08x",
-								pg.ID, pg.N, pg.CopyN, buf, i, got[i], mode, j.pl.Name, wantName, want[i]), wit)
+						suffix, extra := "", ""
+						if pg.Geo != nil {
+							// which elements differ, and were they processed 0 or 2 times?
+							bad := 0
+							for k := range want {
+								if got[k] != want[k] {
+									bad++
+								}
+							}
+							cls := "other-value"
+							if buf == "A" {
+								cls = classifyTimesProcessed(pg, i, got[i])
+							}
+							wg := pg.Geo.wgOfElement(i % pg.N)
+							suffix = fmt.Sprintf("|grid-%dd|%s", pg.Geo.dims(), cls)
+							extra = fmt.Sprintf("; %s; %d elements differ, the first belongs to work-group %d (flattened id) of %d; %s", pg.Geo, bad, wg, pg.Geo.totalWGs(), cls)
+							wit["differing_elements"], wit["work_group_of_first"], wit["class"] = bad, wg, cls
+							if len(j.pl.Unified) > 0 {
+								per := unifiedShare(pg.Geo.totalWGs(), len(j.pl.Unified))
+								wit["unified_share_size"], wit["member_index_of_first"] = per, wg/per
+								extra += fmt.Sprintf(" (share of member %d of the unified device, shares of %d work-groups)", wg/per, per)
+							}
+						}
+						c.Violation(fmt.Sprintf("C18|e2e|%s|%s|differs-from-%s|buffer-%s%s", mode, j.pl.Name, wantName, buf, suffix),
+							fmt.Sprintf("program %s (n=%d, copy %d bytes): buffer %s element %d = 0x%08x on %s/%s, %s gives 0x%08x%s",
+								pg.ID, pg.N, pg.CopyN, buf, i, got[i], mode, j.pl.Name, wantName, want[i], extra), wit)
 						return false
 					}
 				}
@@ -308,7 +459,32 @@ func runE2E(c *vlib.Check) {
 			if ok {
 				ok = cmp("A", j.res.A, refA, "host-reference") && cmp("B", j.res.B, refB, "host-reference")
 			}
-			if ok && j.pl.Name != "1gpu" {
+			if ok && j.pl.Name != "1gpu" && pg.Geo != nil {
+				g := *pg.Geo
+				c.Nontrivial("e2e/" + pg.ID + "/" + mode + "/" + j.pl.Name)
+				c.Count("e2e_multi_gpu_runs_equal_to_single", 1)
+				launches := int64(len(pg.Steps))
+				c.Count(fmt.Sprintf("geom_launches_%dd", g.dims()), launches)
+				if g.partial() {
+					c.Count("geom_launches_with_partial_work_groups", launches)
+				}
+				if m := len(j.pl.Unified); m > 0 {
+					rowsLt, wraps, idle := g.unifiedFacts(m)
+					c.Count("geom_unified_launches|"+mode, launches)
+					c.Distinct("geom_unified_members", fmt.Sprint(m))
+					if rowsLt {
+						c.Count("geom_unified_launches_with_fewer_wg_rows_than_members|"+mode, launches)
+					}
+					if wraps {
+						c.Count("geom_unified_launches_with_a_share_wrapping_a_row_end|"+mode, launches)
+					}
+					if idle {
+						c.Count("geom_unified_launches_with_an_idle_member", launches)
+					}
+				} else if j.pl.Split {
+					c.Count("geom_host_split_launches|"+mode, launches*int64(len(g.hostSplit(len(j.pl.Spread)))))
+				}
+			} else if ok && j.pl.Name != "1gpu" {
 				groups := (pg.N + 63) / 64
 				if pg.N%64 != 0 || groups%64 == 1 {
 					c.Nontrivial("e2e/" + pg.ID + "/" + mode + "/" + j.pl.Name)
@@ -318,6 +494,50 @@ func runE2E(c *vlib.Check) {
 		}
 		c.Sample(map[string]any{"e2e_program": pg})
 	}
+}
+
+// classifyTimesProcessed explains a differing element of buffer A of a
+// geometry program: which value results when some step processed it 0 or 2
+// times instead of once.
+func classifyTimesProcessed(pg e2eProgram, i int, got uint32) string {
+	r := vlib.NewPRNG(pg.Seed)
+	var x uint32
+	for k := 0; k <= i; k++ {
+		x = r.Uint32()
+	}
+	n := len(pg.Steps)
+	total := 1
+	for k := 0; k < n; k++ {
+		total *= 3
+	}
+	for code := 0; code < total; code++ {
+		v, cc := x, code
+		zero, two := false, false
+		for _, st := range pg.Steps {
+			t := cc % 3 // 0: once, 1: never, 2: twice
+			cc /= 3
+			switch t {
+			case 0:
+				v = st.Op.Apply(v, st.C)
+			case 1:
+				zero = true
+			case 2:
+				v = st.Op.Apply(st.Op.Apply(v, st.C), st.C)
+				two = true
+			}
+		}
+		if v == got && (zero || two) {
+			switch {
+			case zero && two:
+				return "element-not-processed-by-one-launch-and-twice-by-another"
+			case zero:
+				return "element-not-processed"
+			default:
+				return "element-processed-twice"
+			}
+		}
+	}
+	return "other-value"
 }
 
 func firstPanicLine(s string) string {
